@@ -40,7 +40,7 @@ import (
 	"verifharness/hx"
 )
 
-var recoverMode bool
+var recoverMode, strictRecover bool
 
 var (
 	logger     = zap.NewNop()
@@ -228,7 +228,8 @@ type node struct {
 	decVal  []byte
 	hasDec  bool
 	started bool
-	rewound bool // UponDecided moved the round of this (undecided) instance backwards (signature of F6)
+	armed   uint64 // the round the real timer was last armed for (what a real timeout event would carry)
+	rewound bool   // UponDecided moved the round of this (undecided) instance backwards (signature of F6)
 	nops    int
 }
 
@@ -334,6 +335,9 @@ func (nd *node) obsState() {
 func (nd *node) obsOuts(timerFirst bool) (bcasts []*specqbft.SignedMessage) {
 	bcasts = nd.net.take()
 	arms := nd.timer.take()
+	if len(arms) > 0 {
+		nd.armed = arms[len(arms)-1][1]
+	}
 	pt := func() {
 		for _, a := range arms {
 			nd.lines = append(nd.lines, fmt.Sprintf("OBS out timer %d %d", a[0], a[1]))
@@ -456,6 +460,17 @@ func (nd *node) checkCertificate(d *specqbft.SignedMessage, local bool) {
 		if valueCheck(d.FullData) != nil {
 			nd.violf("c02", "locally reached decision on a value that fails the value check")
 		}
+		if st := nd.state(); st != nil && st.ProposalAcceptedForCurrentRound != nil {
+			p := st.ProposalAcceptedForCurrentRound
+			ld := specqbft.RoundRobinProposer(&specqbft.State{Share: nd.share, Height: nd.height}, d.Message.Round)
+			if len(p.Signers) != 1 || p.Signers[0] != ld || p.Message.Round != d.Message.Round {
+				nd.violf("c02", "locally reached decision of round %d rests on a proposal of round %d signed by %v; the leader of round %d is %d",
+					uint64(d.Message.Round), uint64(p.Message.Round), p.Signers, uint64(d.Message.Round), ld)
+			}
+			if sha256.Sum256(p.FullData) != d.Message.Root {
+				nd.violf("c02", "locally reached decision whose certified root is not the hash of the accepted proposal's value")
+			}
+		}
 	}
 }
 
@@ -555,11 +570,18 @@ func (nd *node) timeout() []*specqbft.SignedMessage {
 		return nil
 	}
 	if nd.level == "ctrl" {
-		r := uint64(s.Round)
+		// the timeout event carries the round the timer was armed for, as the real RoundTimer's callback does
+		r := nd.armed
+		if r == 0 {
+			r = uint64(s.Round)
+		}
 		nd.lines = append(nd.lines, fmt.Sprintf("CTIMEOUT %d %d", uint64(nd.height), r))
 		ev := &ssvtypes.EventMsg{Type: ssvtypes.Timeout}
 		ev.Data, _ = json.Marshal(&ssvtypes.TimeoutData{Height: nd.height, Round: specqbft.Round(r)})
-		could := !s.Decided && nd.ctrl.StoredInstances.FindInstance(nd.height).CanProcessMessages()
+		could := !s.Decided && r >= uint64(s.Round) && nd.ctrl.StoredInstances.FindInstance(nd.height).CanProcessMessages()
+		if r < uint64(s.Round) && !s.Decided {
+			nd.violf("c07", "the round timer of operator %d is armed for round %d although the instance is in round %d: its timeout is discarded as old", nd.id, r, uint64(s.Round))
+		}
 		err := nd.ctrl.OnTimeout(logger, *ev)
 		nd.lines = append(nd.lines, fmt.Sprintf("OBS timeout %d", b2i(err == nil)))
 		out := nd.obsOuts(false)
@@ -677,7 +699,18 @@ func (s *sim) forge(id spectypes.OperatorID) *specqbft.SignedMessage {
 	v := s.pickValue()
 	data := valueBytes(v)
 	root := sha256.Sum256(data)
-	switch r.Intn(7) {
+	// mostly support or contradict what is really going on: take round and value from a proposal seen so far
+	if props := s.seenOf(specqbft.ProposalMsgType); len(props) > 0 && r.Chance(7, 10) {
+		p := props[r.Intn(len(props))]
+		if uint64(p.Message.Round) < 1<<20 {
+			round = uint64(p.Message.Round)
+		}
+		if len(p.FullData) == 8 && r.Chance(3, 4) {
+			data = p.FullData
+			root = sha256.Sum256(data)
+		}
+	}
+	switch r.Intn(8) {
 	case 0: // proposal (equivocation: a fresh value each time), round 1 or with justifications taken from the air
 		msg := s.base(specqbft.ProposalMsgType, round, root)
 		if round > 1 {
@@ -727,6 +760,21 @@ func (s *sim) forge(id spectypes.OperatorID) *specqbft.SignedMessage {
 		pj = append(pj, s.sign(id, s.base(specqbft.PrepareMsgType, round, root), nil))
 		msg.RoundChangeJustification, _ = specqbft.MarshalJustifications(pj)
 		s.stats["byz-rc-prepared"]++
+		return s.sign(id, msg, data)
+	case 7: // proposal for a later round whose justification names correct operators with fabricated round changes
+		if round < 2 {
+			round = 2
+		}
+		msg := s.base(specqbft.ProposalMsgType, round, root)
+		var rcs []*specqbft.SignedMessage
+		for _, hid := range s.honest {
+			rc := s.sign(id, s.base(specqbft.RoundChangeMsgType, round, [32]byte{}), nil) // signed with the WRONG key
+			rc.Signers = []spectypes.OperatorID{hid}
+			rcs = append(rcs, rc)
+		}
+		rcs = append(rcs, s.sign(id, s.base(specqbft.RoundChangeMsgType, round, [32]byte{}), nil))
+		msg.RoundChangeJustification, _ = specqbft.MarshalJustifications(rcs)
+		s.stats["byz-proposal-forged-rcs"]++
 		return s.sign(id, msg, data)
 	case 5: // decided-shaped: aggregate of Byzantine commits only (sub-quorum) or with replayed honest commits
 		msg := s.base(specqbft.CommitMsgType, round, root)
@@ -1024,6 +1072,9 @@ func oneRun(out *hx.Out, w *world, seed, c uint64, level string, nbyz int, mutAn
 			used := s.recoverPhase(f + 3)
 			if used < 0 {
 				out.Count("recover-not-decided-within-f+3")
+				if strictRecover {
+					s.nodes[s.honest[0]].violf("c07", "the timely continuation (all honest broadcasts re-delivered, prepared round changes last, lowest-round timers first) did not make every correct operator decide within f+3 further rounds")
+				}
 				s.nodes[s.honest[0]].lines = append(s.nodes[s.honest[0]].lines, "# c07 exploration: the FIFO timely continuation did not decide everywhere within f+3 timeout phases")
 			} else {
 				out.Count(fmt.Sprintf("recover-decided-after-%d-phases", used))
@@ -1062,8 +1113,8 @@ func oneRun(out *hx.Out, w *world, seed, c uint64, level string, nbyz int, mutAn
 		out.Count(fmt.Sprintf("runs-decided-%d-of-%d", decs, len(s.honest)))
 		for _, id := range s.honest {
 			nd := s.nodes[id]
-			out.Case("net seed=%d run=%d size=%d level=%s nbyz=%d mut=%d steps=%d recover=%d byz=%v node=%d height=%d maxround=%d decided=%d",
-				seed, c, size, level, nbyz, b2i(mutAny), steps, b2i(recoverMode), keys(s.byz), id, uint64(s.height), maxRound, decs)
+			out.Case("net seed=%d run=%d size=%d level=%s nbyz=%d mut=%d steps=%d recover=%d strict=%d byz=%v node=%d height=%d maxround=%d decided=%d",
+				seed, c, size, level, nbyz, b2i(mutAny), steps, b2i(recoverMode), b2i(strictRecover), keys(s.byz), id, uint64(s.height), maxRound, decs)
 			for _, l := range nd.lines {
 				writeLine(out, l)
 			}
@@ -1462,6 +1513,31 @@ func replay(out *hx.Out, path string) {
 			exhCase(out, w, exhAlphabet(w), seq)
 			continue
 		}
+		if strings.Contains(l, " attack seed=") {
+			var sd, cs uint64
+			only := ""
+			for _, f := range strings.Fields(l) {
+				kv := strings.SplitN(f, "=", 2)
+				if len(kv) == 2 {
+					switch kv[0] {
+					case "seed":
+						sd, _ = strconv.ParseUint(kv[1], 10, 64)
+					case "case":
+						cs, _ = strconv.ParseUint(kv[1], 10, 64)
+					case "only":
+						if kv[1] != "-" {
+							only = kv[1]
+						}
+					}
+				}
+			}
+			key := fmt.Sprintf("attack/%d/%d/%s", sd, cs, only)
+			if !done[key] {
+				done[key] = true
+				attackOne(out, sd, cs, only)
+			}
+			continue
+		}
 		if strings.Contains(l, "scenario=f6") {
 			if !done["f6"] {
 				done["f6"] = true
@@ -1493,6 +1569,8 @@ func replay(out *hx.Out, path string) {
 				steps, _ = strconv.Atoi(kv[1])
 			case "recover":
 				recoverMode = kv[1] == "1"
+			case "strict":
+				strictRecover = kv[1] == "1"
 			}
 		}
 		key := fmt.Sprintf("%d/%d/%d/%s/%d/%v/%d", seed, run, size, level, nbyz, mut, steps)
@@ -1532,9 +1610,11 @@ func main() {
 	nbyz := fs.Int("byz", -1, "number of Byzantine operators (-1: random 0..f)")
 	mut := fs.Bool("mut", false, "forge with any operator's key (single-instance conformance)")
 	steps := fs.Int("steps", 0, "scheduler steps per run (0: random 40..200)")
+	only := fs.String("only", "", "attack: only this script (equivocate | forged-rc | early-prop | solo)")
 	exhLen := fs.Int("len", 2, "exh: maximal history length")
 	shard := fs.Int("shard", 0, "exh: this shard")
 	shards := fs.Int("of", 1, "exh: number of shards")
+	fs.BoolVar(&strictRecover, "strict", false, "count a failing timely continuation as a c07 violation (used only when searching for a failing input after a correspondence break)")
 	fs.BoolVar(&recoverMode, "recover", false, "after the adversarial prefix run the timely continuation (C07 exploration)")
 	_ = fs.Parse(os.Args[2:])
 	out := hx.NewOut()
@@ -1542,6 +1622,8 @@ func main() {
 	switch mode {
 	case "net":
 		netMode(out, *seed, *n, *size, *level, *nbyz, *mut, *steps)
+	case "attack":
+		attackMode(out, *seed, *n, *only)
 	case "f6":
 		scenarioF6(out)
 	case "decided":
